@@ -14,6 +14,11 @@ use crate::model::uni::Outcome;
 use crate::oracle::sbf::SbfTable;
 
 pub struct Eval {
+    /// ECRTS'19 analyses only: the same evaluation restricted to the step offsets of the demand of
+    /// the callback under analysis (what the analysis' Lemma 7 prescribes), and where the all-offset
+    /// maximum / first divergence is located ("step", "non-step-inside", "non-step-at-busy-window-end")
+    pub steps_only: Option<Outcome>,
+    pub decisive_offset: Option<(u64, &'static str)>,
     pub outcome: Outcome,
     /// largest least-solution needed (a smaller limit must give Err); u64::MAX if diverged
     pub needed_limit: u64,
@@ -64,7 +69,7 @@ pub fn evaluate(p: &RosProblem, sbf: &SbfTable, limit: u64) -> Eval {
     match p {
         RosProblem::EventSource { demand, .. } => {
             let t = DemTab::new(demand, 3 * limit + 4);
-            ecrts(sbf, limit, &|x| t.n(x), &|a, _r| t.n(a + 1))
+            ecrts(sbf, limit, &|x| t.n(x), &|a, _r| t.n(a + 1), &t.steps_upto(2 * limit + 2))
         }
         RosProblem::Timer { own, interf, blocking, .. } => {
             let o = DemTab::new(own, 3 * limit + 4);
@@ -74,7 +79,7 @@ pub fn evaluate(p: &RosProblem, sbf: &SbfTable, limit: u64) -> Eval {
                 let w = o.least[(a + r) as usize];
                 let interval = if r > w { a + r - w + 1 } else { a + 1 };
                 o.n(a + 1) + i.n(interval) + b
-            })
+            }, &o.steps_upto(2 * limit + 2))
         }
         RosProblem::PollingPoint { own, interf, .. } => {
             let o = DemTab::new(own, 3 * limit + 4);
@@ -83,7 +88,7 @@ pub fn evaluate(p: &RosProblem, sbf: &SbfTable, limit: u64) -> Eval {
                 let w = o.least[(a + r) as usize];
                 let interval = if r > w { a + r - w + 1 } else { a + 1 };
                 o.n(a + 1) + i.n(interval)
-            })
+            }, &o.steps_upto(2 * limit + 2))
         }
         RosProblem::Chain { last, prefix, full, others, .. } => {
             let l = DemTab::new(last, 3 * limit + 4);
@@ -94,7 +99,7 @@ pub fn evaluate(p: &RosProblem, sbf: &SbfTable, limit: u64) -> Eval {
                 let w = l.least[(a + r) as usize];
                 let interval = if r > w { a + r - w + 1 } else { a + 1 };
                 l.n(a + 1) + pr.n(interval) + ot.n(interval)
-            })
+            }, &f.steps_upto(2 * limit + 2))
         }
         RosProblem::RR { workload, subchain, .. } => rr(sbf, limit, workload, subchain),
         RosProblem::BW { workload, subchain, .. } => bw(sbf, limit, workload, subchain),
@@ -102,31 +107,67 @@ pub fn evaluate(p: &RosProblem, sbf: &SbfTable, limit: u64) -> Eval {
 }
 
 /// Generic driver of the ECRTS'19 analyses: busy-window bound, then EVERY
-/// offset 0..=max_bw (not only demand steps).
-fn ecrts(sbf: &SbfTable, limit: u64, bw_rhs: &dyn Fn(u64) -> u64, rhs: &dyn Fn(u64, u64) -> u64) -> Eval {
+/// offset 0..=max_bw (not only demand steps). `step_lengths` = interval lengths at
+/// which the demand of the callback under analysis steps (for classification only).
+fn ecrts(sbf: &SbfTable, limit: u64, bw_rhs: &dyn Fn(u64) -> u64, rhs: &dyn Fn(u64, u64) -> u64, step_lengths: &[u64]) -> Eval {
     let max_bw = match least(sbf, 0, limit, bw_rhs) {
         Some(x) => x,
-        None => return Eval { outcome: Outcome::Diverged(0, limit), needed_limit: u64::MAX, offsets_examined: 0, max_bound: None },
+        None => return Eval { steps_only: Some(Outcome::Diverged(0, limit)), decisive_offset: None, outcome: Outcome::Diverged(0, limit), needed_limit: u64::MAX, offsets_examined: 0, max_bound: None },
     };
+    let is_step = |a: u64| step_lengths.binary_search(&(a + 1)).is_ok();
     let mut needed = max_bw;
-    let mut best: Option<u64> = None;
+    let mut best: Option<(u64, u64)> = None; // (value, offset)
     let mut first_err: Option<u64> = None;
+    let mut best_steps: Option<u64> = None;
+    let mut first_err_steps: Option<u64> = None;
     for a in 0..=max_bw {
-        match least(sbf, a, limit, &|r| rhs(a, r)) {
+        let r = least(sbf, a, limit, &|r| rhs(a, r));
+        if std::env::var("RTA_DEBUG").is_ok() {
+            eprintln!("offset {} (step: {}) -> {:?}", a, is_step(a), r);
+        }
+        match r {
             Some(r) => {
                 needed = needed.max(r);
-                best = Some(best.map_or(r, |b: u64| b.max(r)));
+                if best.map_or(true, |(b, _)| r > b) {
+                    best = Some((r, a));
+                }
+                if is_step(a) {
+                    best_steps = Some(best_steps.map_or(r, |b: u64| b.max(r)));
+                }
             }
             None => {
                 if first_err.is_none() {
                     first_err = Some(a);
                 }
+                if is_step(a) && first_err_steps.is_none() {
+                    first_err_steps = Some(a);
+                }
             }
         }
     }
+    let class = |a: u64| -> &'static str {
+        if is_step(a) {
+            "step"
+        } else if a == max_bw {
+            "non-step-at-busy-window-end"
+        } else {
+            "non-step-inside"
+        }
+    };
+    let steps_only = Some(match first_err_steps {
+        Some(a) => Outcome::Diverged(a, limit),
+        None => Outcome::Ok(best_steps.unwrap_or(0)),
+    });
     match first_err {
-        Some(a) => Eval { outcome: Outcome::Diverged(a, limit), needed_limit: u64::MAX, offsets_examined: max_bw + 1, max_bound: best },
-        None => Eval { outcome: Outcome::Ok(best.unwrap_or(0)), needed_limit: needed, offsets_examined: max_bw + 1, max_bound: best },
+        Some(a) => Eval { steps_only, decisive_offset: Some((a, class(a))), outcome: Outcome::Diverged(a, limit), needed_limit: u64::MAX, offsets_examined: max_bw + 1, max_bound: best.map(|b| b.0) },
+        None => Eval {
+            steps_only,
+            decisive_offset: best.map(|(_, a)| (a, class(a))),
+            outcome: Outcome::Ok(best.map_or(0, |b| b.0)),
+            needed_limit: needed,
+            offsets_examined: max_bw + 1,
+            max_bound: best.map(|b| b.0),
+        },
     }
 }
 
@@ -182,15 +223,15 @@ fn rr(sbf: &SbfTable, limit: u64, workload: &[CbSpec], subchain: &[usize]) -> Ev
     };
     let s_star = match least(sbf, 0, limit, &rhs) {
         Some(s) => s,
-        None => return Eval { outcome: Outcome::Diverged(0, limit), needed_limit: u64::MAX, offsets_examined: 0, max_bound: None },
+        None => return Eval { steps_only: None, decisive_offset: None, outcome: Outcome::Diverged(0, limit), needed_limit: u64::MAX, offsets_examined: 0, max_bound: None },
     };
     let supply_star = sbf.sbf(s_star);
     let n = self_inst(s_star);
     let omega = tabs[eoc].cost(n + 1) - tabs[eoc].cost(n);
     let demand = supply_star.saturating_sub(1) + omega;
     match sbf.service_time(demand) {
-        Some(r) => Eval { outcome: Outcome::Ok(r), needed_limit: s_star, offsets_examined: 1, max_bound: Some(r) },
-        None => Eval { outcome: Outcome::AssumptionViolated, needed_limit: s_star, offsets_examined: 1, max_bound: None },
+        Some(r) => Eval { steps_only: None, decisive_offset: None, outcome: Outcome::Ok(r), needed_limit: s_star, offsets_examined: 1, max_bound: Some(r) },
+        None => Eval { steps_only: None, decisive_offset: None, outcome: Outcome::AssumptionViolated, needed_limit: s_star, offsets_examined: 1, max_bound: None },
     }
 }
 
@@ -214,7 +255,7 @@ fn bw(sbf: &SbfTable, limit: u64, workload: &[CbSpec], subchain: &[usize]) -> Ev
     let rhs_max = |ta: u64| 1 + interference(ta, ta) + tabs[eoc].cost(tabs[eoc].n(ta));
     let max_offset = match least(sbf, 0, limit, &rhs_max) {
         Some(x) => x,
-        None => return Eval { outcome: Outcome::Diverged(0, limit), needed_limit: u64::MAX, offsets_examined: 0, max_bound: None },
+        None => return Eval { steps_only: None, decisive_offset: None, outcome: Outcome::Diverged(0, limit), needed_limit: u64::MAX, offsets_examined: 0, max_bound: None },
     };
     let mut needed = max_offset;
     let mut best: Option<u64> = None;
@@ -231,7 +272,7 @@ fn bw(sbf: &SbfTable, limit: u64, workload: &[CbSpec], subchain: &[usize]) -> Ev
                 let demand = sbf.sbf(s_star).saturating_sub(1) + omega;
                 match sbf.service_time(demand) {
                     None => {
-                        return Eval { outcome: Outcome::AssumptionViolated, needed_limit: needed, offsets_examined: act, max_bound: None }
+                        return Eval { steps_only: None, decisive_offset: None, outcome: Outcome::AssumptionViolated, needed_limit: needed, offsets_examined: act, max_bound: None }
                     }
                     Some(f) => {
                         let b = if singleton { f.saturating_sub(act) } else { f };
@@ -242,9 +283,9 @@ fn bw(sbf: &SbfTable, limit: u64, workload: &[CbSpec], subchain: &[usize]) -> Ev
         }
     }
     if diverged {
-        Eval { outcome: Outcome::Diverged(0, limit), needed_limit: u64::MAX, offsets_examined: max_offset, max_bound: best }
+        Eval { steps_only: None, decisive_offset: None, outcome: Outcome::Diverged(0, limit), needed_limit: u64::MAX, offsets_examined: max_offset, max_bound: best }
     } else {
-        Eval { outcome: Outcome::Ok(best.unwrap_or(0)), needed_limit: needed, offsets_examined: max_offset, max_bound: best }
+        Eval { steps_only: None, decisive_offset: None, outcome: Outcome::Ok(best.unwrap_or(0)), needed_limit: needed, offsets_examined: max_offset, max_bound: best }
     }
 }
 
